@@ -184,8 +184,13 @@ def used_seqs(case):
 # ----------------------------------------------------------------------------- implementation
 
 def build(case):
-    torch = impl.load()
+    impl.load()
     from torchtree.evolution.tree_likelihood import TreeLikelihoodModel
+    return H.tracked(TreeLikelihoodModel, spec(case))
+
+
+def spec(case):
+    """the JSON specification of the TreeLikelihoodModel of a case"""
     n, names = case["n"], case["names"]
     to = case["taxa_order"]
     tr = case["treem"]
@@ -253,7 +258,7 @@ def build(case):
         d["use_ambiguities"] = True
     elif case["tip"] == "states":
         d["use_tip_states"] = True
-    return H.tracked(TreeLikelihoodModel, d)
+    return d
 
 
 def newick_with_lengths(tree, names, bl, frac, taxa_order):
